@@ -344,28 +344,19 @@ inductive W
   | putMeta (c : Nat) (m : Meta)
 deriving Repr
 
-def taskLt (a b : Task) : Bool := a.chan < b.chan || (a.chan == b.chan && a.id < b.id)
+def sameKey (c i : Nat) (t : Task) : Bool := t.chan == c && t.id == i
 
-def insertTask (t : Task) : List Task → List Task
-  | [] => [t]
-  | x :: xs =>
-    if x.chan == t.chan && x.id == t.id then t :: xs
-    else if taskLt t x then t :: x :: xs
-    else x :: insertTask t xs
+/-- rows are kept as key-unique bags: a put removes every row with the same key first -/
+def putTaskRow (t : Task) (ts : List Task) : List Task := t :: ts.filter (fun x => !sameKey t.chan t.id x)
 
-def insertKV {α : Type} (k : Nat) (v : α) : List (Nat × α) → List (Nat × α)
-  | [] => [(k, v)]
-  | x :: xs =>
-    if x.1 == k then (k, v) :: xs
-    else if k < x.1 then (k, v) :: x :: xs
-    else x :: insertKV k v xs
+def putKV {α : Type} (k : Nat) (v : α) (l : List (Nat × α)) : List (Nat × α) := (k, v) :: l.filter (fun p => p.1 != k)
 
 def applyW (s : State) : W → State
-  | .setActive c i => { s with active := insertKV c i s.active }
+  | .setActive c i => { s with active := putKV c i s.active }
   | .delActive c => { s with active := s.active.filter (fun p => p.1 != c) }
-  | .putTask t => { s with tasks := insertTask t s.tasks }
-  | .delTask c i => { s with tasks := s.tasks.filter (fun t => !(t.chan == c && t.id == i)) }
-  | .putMeta c m => { s with metas := insertKV c m s.metas }
+  | .putTask t => { s with tasks := putTaskRow t s.tasks }
+  | .delTask c i => { s with tasks := s.tasks.filter (fun t => !sameKey c i t) }
+  | .putMeta c m => { s with metas := putKV c m s.metas }
 
 def applyWs (s : State) (ws : List W) : State := ws.foldl applyW s
 
@@ -420,6 +411,15 @@ def Ov.meta? (o : Ov) (db : State) (c : Nat) : Option Meta :=
 def Ov.putTask (o : Ov) (t : Task) : Ov := { o with tasks := ((t.chan, t.id), some t) :: o.tasks }
 def Ov.putMeta (o : Ov) (c : Nat) (m : Meta) : Ov := { o with metas := (c, some m) :: o.metas }
 
+def taskLe (a b : Task) : Bool := a.chan < b.chan || (a.chan == b.chan && a.id ≤ b.id)
+
+def insertByKey (t : Task) : List Task → List Task
+  | [] => [t]
+  | x :: xs => if taskLe t x then t :: x :: xs else x :: insertByKey t xs
+
+/-- primary-key order (channel id, task id) of a scan -/
+def sortTasks (ts : List Task) : List Task := ts.foldr insertByKey []
+
 def gcWrites (db : State) (before limit : Nat) : List W :=
   let rec go (ts : List Task) (deleted : Nat) : List W :=
     match ts with
@@ -428,7 +428,7 @@ def gcWrites (db : State) (before limit : Nat) : List W :=
       if deleted ≥ limit then []
       else if !t.terminal || t.comp ≥ before then go rest deleted
       else W.delTask t.chan t.id :: go rest (deleted + 1)
-  go db.tasks 0
+  go (sortTasks db.tasks) 0
 
 /-- one queued closure at commit time -/
 def runStaged (db : State) (o : Ov) : Staged → Except Err (Ov × List W)
@@ -475,7 +475,7 @@ def runStaged (db : State) (o : Ov) : Staged → Except Err (Ov × List W)
           else if !validMeta nm then .error .invalid
           else match upsertWrites db nt with
             | .error e => .error e
-            | .ok ws => .ok ((o.putTask nt).putMeta c.rg.chan nm, ws ++ [W.putMeta c.rg.chan nm])
+            | .ok ws => .ok ((o.putTask nt).putMeta c.rg.chan nm, ws ++ [W.putMeta c.rg.chan (normMeta nm)])
   | .gc before limit => .ok (o, gcWrites db before limit)
 
 def commitStaged (db : State) : Ov → List Staged → Except Err (List W)
@@ -635,6 +635,22 @@ def applyBatch (db : State) (cmds : List Cmd) : State × Except Err (List String
 def setMeta (db : State) (c : Nat) (m : Meta) : State × String :=
   let db' := { db with metas := db.metas.filter (fun p => p.1 != c) }
   if !validMeta m then (db', "err:invalid")
-  else ({ db' with metas := insertKV c (normMeta m) db'.metas }, "ok")
+  else ({ db' with metas := putKV c (normMeta m) db'.metas }, "ok")
+
+/-- one line of a history: an environment metadata write or one ApplyBatch -/
+inductive Line
+  | setmeta (c : Nat) (m : Meta)
+  | batch (cmds : List Cmd)
+
+def Line.single : Line → Bool
+  | .setmeta _ _ => true
+  | .batch [_] => true
+  | .batch _ => false
+
+def stepLine (s : State) : Line → State
+  | .setmeta c m => (setMeta s c m).1
+  | .batch cmds => (applyBatch s cmds).1
+
+def run (s : State) (ls : List Line) : State := ls.foldl stepLine s
 
 end WK.C17
